@@ -214,6 +214,65 @@ def pipeline_rules(chk, P, pre):
 
 
 
+def runtime_rules(chk, P, prefix):
+    """Runtime<..>: emit passes its own components, the Emitter impl runs the pipeline, flush and accessors forward"""
+    def runtime_emit():
+        b = P.body("emit_core::runtime::Runtime::<TEmitter, TFilter, TCtxt, TClock, TRng>::emit")
+        cs = b.calls_to(path="emit_core::emit")
+        if len(cs) != 1 or b.count_on_paths({cs[0].bb}) != (1, 1):
+            return False, "Runtime::emit must call emit_core::emit exactly once", [], b.span
+        c = cs[0]
+        want = ["emitter", "filter", "ctxt", "clock"]
+        for i, w in enumerate(want):
+            r, names = mir.o_field_path(b.origin(c.args[i]))
+            if not (r[0] == "param" and r[1] == 1 and names == [w]):
+                return False, "argument %d of emit_core::emit is %s, expected self.%s" % (i, o_str(b.origin(c.args[i])), w), [], c.loc
+        if not common.has_root(b.origin(c.args[4]), "param", 2):
+            return False, "event argument is %s" % o_str(b.origin(c.args[4])), [], c.loc
+        return True, "", [c.loc]
+    chk.ob("%s:Runtime::emit" % prefix, "Runtime::emit passes its own emitter, filter, ctxt, clock to the like-named parameters", runtime_emit)
+
+    def runtime_emitter_impl():
+        b = P.impl_method(EMITTER, "emit_core::runtime::Runtime<TEmitter, TFilter, TCtxt, TClock, TRng>", "emit")
+        cs = [c for c in b.calls(normal_only=True) if c.callee.get("name") == "emit"]
+        if len(cs) != 1 or b.count_on_paths({cs[0].bb}) != (1, 1):
+            return False, "must forward exactly once", [], b.span
+        c = cs[0]
+        p = c.callee.get("path", "")
+        o = b.origin(c.args[0])
+        if not (p.startswith("emit_core::runtime::Runtime") and p.endswith("::emit") and mir.o_is_param(o, idx=1)):
+            return False, ("`<Runtime as Emitter>::emit` forwards to %s on %s; emitting through a runtime must go "
+                           "through the runtime's own pipeline (Runtime::emit: filter, clock, ctxt), not straight "
+                           "to its destination" % (c.callee.get("full"), o_str(o))), [], c.loc
+        if not common.has_root(b.origin(c.args[1]), "param", 2):
+            return False, "event not passed", [], c.loc
+        return True, "", [c.loc]
+    chk.ob("%s:Emitter::emit" % prefix, "Emitter for Runtime runs the runtime's own pipeline (Runtime::emit) exactly once", runtime_emitter_impl)
+
+    def runtime_flush():
+        b = P.impl_method(EMITTER, "emit_core::runtime::Runtime<TEmitter, TFilter, TCtxt, TClock, TRng>", "blocking_flush")
+        ok, d, s = common.forward_check(b)[:3]
+        if not ok:
+            return False, d, [], b.span
+        c = b.calls_to(name="blocking_flush")[0]
+        r, names = mir.o_field_path(b.origin(c.args[0]))
+        if names != ["emitter"]:
+            return False, "flush goes to %s" % o_str(b.origin(c.args[0])), [], c.loc
+        return True, "", s
+    chk.ob("%s:Emitter::blocking_flush" % prefix, "Runtime::blocking_flush forwards to its emitter", runtime_flush)
+
+    def accessor(name):
+        def f():
+            b = P.body("emit_core::runtime::Runtime::<TEmitter, TFilter, TCtxt, TClock, TRng>::%s" % name)
+            r, names = mir.o_field_path(b.origin(0))
+            if not (r[0] == "param" and r[1] == 1 and names == [name]):
+                return False, "Runtime::%s() returns %s" % (name, o_str(b.origin(0))), [], b.span
+            return True, "", [b.span]
+        return f
+    for nm in ("emitter", "filter", "ctxt", "clock", "rng"):
+        chk.ob("%s:accessor.%s" % (prefix, nm), "Runtime::%s() returns the field of that name" % nm, accessor(nm))
+
+
 OVERLAYS = ('K2b',)
 
 
@@ -542,62 +601,7 @@ def run(chk):
         return True, "", [c.loc for c in calls]
     chk.ob("C01.S2.first_defined:Filter::matches", "call-site `when` overrides the runtime filter: exactly one decides, its result is returned", first_defined)
 
-    # Runtime
-    def runtime_emit():
-        b = P.body("emit_core::runtime::Runtime::<TEmitter, TFilter, TCtxt, TClock, TRng>::emit")
-        cs = b.calls_to(path="emit_core::emit")
-        if len(cs) != 1 or b.count_on_paths({cs[0].bb}) != (1, 1):
-            return False, "Runtime::emit must call emit_core::emit exactly once", [], b.span
-        c = cs[0]
-        want = ["emitter", "filter", "ctxt", "clock"]
-        for i, w in enumerate(want):
-            r, names = mir.o_field_path(b.origin(c.args[i]))
-            if not (r[0] == "param" and r[1] == 1 and names == [w]):
-                return False, "argument %d of emit_core::emit is %s, expected self.%s" % (i, o_str(b.origin(c.args[i])), w), [], c.loc
-        if not common.has_root(b.origin(c.args[4]), "param", 2):
-            return False, "event argument is %s" % o_str(b.origin(c.args[4])), [], c.loc
-        return True, "", [c.loc]
-    chk.ob("C01.S2.runtime:Runtime::emit", "Runtime::emit passes its own emitter, filter, ctxt, clock to the like-named parameters", runtime_emit)
-
-    def runtime_emitter_impl():
-        b = P.impl_method(EMITTER, "emit_core::runtime::Runtime<TEmitter, TFilter, TCtxt, TClock, TRng>", "emit")
-        cs = [c for c in b.calls(normal_only=True) if c.callee.get("name") == "emit"]
-        if len(cs) != 1 or b.count_on_paths({cs[0].bb}) != (1, 1):
-            return False, "must forward exactly once", [], b.span
-        c = cs[0]
-        p = c.callee.get("path", "")
-        o = b.origin(c.args[0])
-        if not (p.startswith("emit_core::runtime::Runtime") and p.endswith("::emit") and mir.o_is_param(o, idx=1)):
-            return False, ("`<Runtime as Emitter>::emit` forwards to %s on %s; emitting through a runtime must go "
-                           "through the runtime's own pipeline (Runtime::emit: filter, clock, ctxt), not straight "
-                           "to its destination" % (c.callee.get("full"), o_str(o))), [], c.loc
-        if not common.has_root(b.origin(c.args[1]), "param", 2):
-            return False, "event not passed", [], c.loc
-        return True, "", [c.loc]
-    chk.ob("C01.S2.runtime:Emitter::emit", "Emitter for Runtime runs the runtime's own pipeline (Runtime::emit) exactly once", runtime_emitter_impl)
-
-    def runtime_flush():
-        b = P.impl_method(EMITTER, "emit_core::runtime::Runtime<TEmitter, TFilter, TCtxt, TClock, TRng>", "blocking_flush")
-        ok, d, s = common.forward_check(b)[:3]
-        if not ok:
-            return False, d, [], b.span
-        c = b.calls_to(name="blocking_flush")[0]
-        r, names = mir.o_field_path(b.origin(c.args[0]))
-        if names != ["emitter"]:
-            return False, "flush goes to %s" % o_str(b.origin(c.args[0])), [], c.loc
-        return True, "", s
-    chk.ob("C01.S2.runtime:Emitter::blocking_flush", "Runtime::blocking_flush forwards to its emitter", runtime_flush)
-
-    def accessor(name):
-        def f():
-            b = P.body("emit_core::runtime::Runtime::<TEmitter, TFilter, TCtxt, TClock, TRng>::%s" % name)
-            r, names = mir.o_field_path(b.origin(0))
-            if not (r[0] == "param" and r[1] == 1 and names == [name]):
-                return False, "Runtime::%s() returns %s" % (name, o_str(b.origin(0))), [], b.span
-            return True, "", [b.span]
-        return f
-    for nm in ("emitter", "filter", "ctxt", "clock", "rng"):
-        chk.ob("C01.S2.runtime:accessor.%s" % nm, "Runtime::%s() returns the field of that name" % nm, accessor(nm))
+    runtime_rules(chk, P, "C01.S2.runtime")
 
     # macro entry points
     def private_emit(key):
